@@ -25,8 +25,12 @@ func indexType(rt reflect.Type) (im map[string]reflect.StructField) {
 			if 0 < len(f.PkgPath) {
 				continue
 			}
-			if f.Anonymous {
-				fim := indexType(f.Type)
+			et := f.Type
+			if et.Kind() == reflect.Ptr {
+				et = et.Elem()
+			}
+			if f.Anonymous && et.Kind() == reflect.Struct {
+				fim := indexType(et)
 				// prepend index and add to im
 				for k := range fim {
 					ff := fim[k]
